@@ -28,6 +28,7 @@ Mismatch kinds (res["mismatches"], each a dict with "kind", "prog", "cfg", "entr
   impl-sink-not-model   the implementation reports a sink the model does not reach
   step                  an expansion of the implementation is not the model's expansion
   crash                 panic in the implementation vs Crash outcome in the model disagree
+  alarm-count           (max-alarms runs) number of sink visits recorded before the stop differs
   outoffuel             the model ran out of fuel (200000 iterations)
   unstable / xchk / dump-error     the protocol's own sanity checks failed
 """
@@ -138,7 +139,7 @@ def parse_dump(path):
         elif t == "PB":
             d["problems"] += 1
         elif t == "ENT":
-            d["entries"][(p[1], p[2])] = {"node": p[3], "trace": p[4], "alarms": p[5] if len(p) > 5 else "", "hits": set(), "nvis": 0,
+            d["entries"][(p[1], p[2])] = {"node": p[3], "trace": p[4], "alarms": p[5] if len(p) > 5 else "", "hits": set(), "nvis": 0, "nhit": 0,
                                           "panic": None, "vkinds": collections.Counter(), "maxtrace": 0, "maxctrace": 0, "closure_tracing": 0}
         elif t == "V":
             e = d["entries"][(p[1], p[2])]
@@ -151,6 +152,7 @@ def parse_dump(path):
                 e["closure_tracing"] += 1
         elif t == "HIT":
             d["entries"][(p[1], p[2])]["hits"].add((p[3], p[4]))
+            d["entries"][(p[1], p[2])]["nhit"] += 1
         elif t == "PANIC":
             d["entries"][(p[1], p[2])]["panic"] = l.split(None, 3)[3].strip()
         elif t == "FLOW":
@@ -180,7 +182,7 @@ def parse_model(path):
         t = p[0]
         if t == "MRES":
             runs[(p[1], p[2], p[3])] = {"outcome": p[4], "visited": int(p[5].split("=")[1]), "hits": set(), "only_model": 0, "only_impl": 0,
-                                        "samples": []}
+                                        "samples": [], "sinkvisits": int(p[7].split("=")[1]) if len(p) > 7 else -1}
         elif t == "MHIT":
             runs[(p[1], p[2], p[3])]["hits"].add((p[4], p[5]))
         elif t == "MKD":
@@ -268,8 +270,14 @@ def compare(prog, cfg, dumpfile, modelfile):
                 st["crash_agree"] += 1
                 continue
             if limited:
-                # which k sink visits are kept depends on the iteration order: only the subset relation is checked by C05
+                # which sink visits are kept depends on the iteration order, their NUMBER does not: the counter counts every
+                # sink visit of this Visit until it reaches max-alarms
                 st["limited_runs"] += 1
+                if r["sinkvisits"] != ent["nhit"]:
+                    add("alarm-count", "%s.%s" % (p, e), "seed %s: max-alarms=%s, counter at start %s: the model records %d sink visits before stopping "
+                        "(outcome %s), the implementation %d" % (seed, cfg.get("maxalarms"), ent["alarms"], r["sinkvisits"], r["outcome"], ent["nhit"]))
+                else:
+                    st["limited_runs_count_equal"] += 1
                 continue
             extra = r["hits"] - ent["hits"]
             missing = ent["hits"] - r["hits"]
@@ -329,7 +337,7 @@ def run_tie(chk, programs, configs, seeds=None, work=None, jobs=None, mode="both
     return {"stats": stats, "mismatches": mism, "cases": sorted(cases), "work": work, "seeds": seeds}
 
 
-TIE_KINDS = ("model-sink-not-impl", "impl-sink-not-model", "step", "crash", "outoffuel", "unstable", "xchk", "dump-error")
+TIE_KINDS = ("model-sink-not-impl", "impl-sink-not-model", "step", "crash", "alarm-count", "outoffuel", "unstable", "xchk", "dump-error")
 
 
 def write_replay(chk, key, m, extra=""):
